@@ -36,7 +36,7 @@ Proof. exact bucket_window_from. Qed.
    a refusal leaves the limiter untouched *)
 Theorem c14_excess_429 : forall c s e t a,
   (status (snd (login_step c s e t a)) = 429 <-> backend_called (snd (login_step c s e t a)) = false) /\
-  (snd (allow c s t) = false -> login_step c s e t a = (s, {| status := 429; backend_called := false |})).
+  (snd (allow c s t) = false -> login_step c s e t a = (s, {| status := 429; backend_called := false; lookups := 0 |})).
 Proof. intros. split; [apply login_step_429|apply login_step_refused]. Qed.
 
 (* ... and the order of the two calls in both entry points: an attempt whose lookup is performed has
@@ -46,6 +46,36 @@ Theorem c14_limiter_first : forall c s e t a,
   backend_called (snd (login_step c s e t a)) = true ->
   T (fst (login_step c s e t a)) = advance c s t - C c /\ last (fst (login_step c s e t a)) = t.
 Proof. exact limiter_first. Qed.
+
+(* one limiter token buys exactly one backend lookup.  The backend is an answer stream per attempt
+   (what it would say to a first, second, ... lookup: right, wrong, or "cannot tell" — a directory
+   that resets connections, an identity provider answering 5xx); for EVERY request sequence and
+   every such stream the lookups made are one for each attempt the limiter let through and none
+   for the others ... *)
+Theorem c14_one_lookup_per_token : forall c (reqs : list (entry * Z * answers)) s,
+  map lookups (login_run_tries code_tries c s reqs)
+  = map (fun ok : bool => if ok then 1 else 0) (decisions c s (map areq_time reqs)).
+Proof. exact one_lookup_per_token. Qed.
+
+(* ... so the bound holds for LOOKUPS, failing backend or not *)
+Theorem c14_bucket_lookups : forall c t_init (reqs : list (entry * Z * answers)) t0 t1,
+  wf c -> nondecr_from t_init (map areq_time reqs) -> t0 <= t1 ->
+  lookups_in t0 t1 (map areq_time reqs) (login_run_tries code_tries c (init c t_init) reqs) * C c
+    < B c + (t1 - t0) * p c + p c.
+Proof. exact lookups_window. Qed.
+
+(* checkUserPassword asking once is the `login_step` of the other theorems *)
+Theorem c14_tries_code : forall c s e t a,
+  login_step_tries code_tries c s e t a = login_step c s e t (first_answer a).
+Proof. exact login_step_tries_code. Qed.
+
+(* a second lookup after an error breaks the bound while the backend fails: burst 10, 1/s, twelve
+   guesses at one instant -> twenty lookups *)
+Theorem c14_retry_on_error_refuted : exists c t_init (reqs : list (entry * Z * answers)) t0 t1,
+  wf c /\ nondecr_from t_init (map areq_time reqs) /\ t0 <= t1 /\
+  B c + (t1 - t0) * p c + p c
+    <= lookups_in t0 t1 (map areq_time reqs) (login_run_tries 2 c (init c t_init) reqs) * C c.
+Proof. exact retry_on_error_refuted. Qed.
 
 (* both entry points, whatever the backend answers, consult the same limiter in arrival order *)
 Theorem c14_entry_points : forall c reqs s,
@@ -72,6 +102,26 @@ Proof.
   intros k esc ops s Hk i j ti vi oi tj vj oj Hij Hi Hoi Hj Hoj Ei Ej.
   apply (spacing k esc ops s Hk i j ti vi oi tj vj oj); auto using evaluated_passes.
 Qed.
+
+(* ... also when the guesses are in flight at the same time: the spacing test and the update of the
+   reference time are one step under the mutex, so N concurrent requests (thread i reads the clock
+   `fst (thr i)`) pass it in SOME order — for EVERY order, any two that are evaluated are min_secs
+   apart *)
+Theorem c14_totp_spacing_concurrent : forall k esc (thr : nat -> Z * verdict) order s, 0 <= min_secs k ->
+  forall a b ia ib oa ob, (a < b)%nat ->
+  nth_error order a = Some ia -> nth_error (snd (gate_run k esc thr s order)) a = Some oa ->
+  nth_error order b = Some ib -> nth_error (snd (gate_run k esc thr s order)) b = Some ob ->
+  evaluated oa = true -> evaluated ob = true ->
+  fst (thr ia) + min_secs k * SEC <= fst (thr ib).
+Proof. exact gate_any_order. Qed.
+
+(* a gate that reads the entry under the mutex, tests the copy outside and writes back after the
+   evaluation: two guesses at the same instant are both evaluated and count as one failure *)
+Theorem c14_split_gate_refuted : exists thr sched,
+  let r := split_run k_prop true thr rl0 sched in
+  g_outs r = [(0%nat, EvalFail); (1%nat, EvalFail)] /\ fst (thr 0%nat) = fst (thr 1%nat) /\
+  fail_count (g_entry r) = 1.
+Proof. exact split_gate_refuted. Qed.
 
 (* the n-th lock (the failure that makes the count of consecutive failures every*n) refuses
    every attempt, whatever is tried, until n hours later; and n hours grow with n *)
